@@ -1,4 +1,5 @@
 mod check;
+mod unit;
 mod custom;
 mod gen;
 mod judge;
@@ -227,10 +228,19 @@ fn run_check(args: &[String]) -> i32 {
         }
         _ => check::run_cases(&ctx, &plan.cases, &*plan.judge, plan.stages),
     };
+    if unit::UNIT_PROPS.contains(&prop.as_str()) {
+        let mut rng_u = Rng(ctx.seed ^ 0x756e6974);
+        let u = unit::run_unit(&ctx, &mut rng_u, ctx.tier);
+        o.absorb(u);
+        explanation.push_str("; unit level: random terms over the library's own union/concatenate printed by Display for RegExp, against the Lean model (result and text) and the regex-crate oracle");
+    }
     o.exhaustive = plan.exhaustive;
     let judge = &plan.judge;
     let seed = ctx.seed;
     let rejudge = |c: &Case| -> Vec<judge::Fail> {
+        if unit::is_unit(c) {
+            return unit::rejudge(&prop, c);
+        }
         match prop.as_str() {
             "C10" => custom::c10_variants(c, seed),
             "C12" | "C14" | "C17" => vec![judge::Fail::new(judge::Kind::Other, "not re-judged".into(), None)],
@@ -305,6 +315,26 @@ fn run_replay(args: &[String]) -> i32 {
         return 1;
     };
     println!("# input: {}", case.describe());
+    if unit::is_unit(&case) {
+        let ev = unit::eval_impl(unit::term_of(&case), case.cfg);
+        println!("# implementation (union/concatenate, Display for RegExp): {:?}", ev);
+        if ctx.model.available() {
+            let req = format!("X {} {} {} {}", case.cfg.bits, case.cfg.min_rep, case.cfg.min_len, unit::term_of(&case));
+            if let Ok(r) = ctx.model.run(&[req]) {
+                println!("# Lean model: {}", r.first().cloned().unwrap_or_default());
+            }
+        }
+        let fails = unit::rejudge(&prop, &case);
+        if fails.is_empty() {
+            println!("# the recorded input no longer fails");
+            return 0;
+        }
+        for f in &fails {
+            println!("# {:?}: {}", f.kind, f.what);
+        }
+        println!("VIOLATION property={} replay={}", prop, path);
+        return 1;
+    }
     let built = build_impl(&case);
     println!("# implementation returns: {:?}", built);
     let mut rng = Rng(ctx.seed);
